@@ -12,7 +12,7 @@ MAXV = 8
 NAN = float('nan')
 ALPH = {
     'int': [0, 7, -3],
-    'float': [1.0, -2.0, 2.5, 1e20, NAN],
+    'float': [1.0, -2.0, 2.5, 1e20, NAN, 123456.5, 2.000001],
     'object': ['x', '7', None, NAN],
     'str': ['x', '', None],
 }
@@ -241,7 +241,7 @@ def layers(tier):
              else ['range', 'str', 'rev']} for k in ('int', 'float', 'object', 'str')]
     Ls = [Layer('series', 'checks.c16:w_series', jobs,
                 'series_to_str on all series of length 0..%d over per-dtype value alphabets (ints {0,7,-3}; floats '
-                '{1.0,-2.0,2.5,1e20,NaN}; object {"x","7",None,NaN}; pandas str {"x","",missing}) x index kinds x '
+                '{1.0,-2.0,2.5,1e20,NaN,123456.5,2.000001 - large and nearly whole fractions}; object {"x","7",None,NaN}; pandas str {"x","",missing}) x index kinds x '
                 'inplace; reference converter incl. the documented empty / all-NaN exception; non-trivial = '
                 'non-empty numeric series with a present value' % ml, min_nontrivial=500, chunksize=1)]
     jobs = [{'kind': k, 'maxlen': 3 if quick else 4, 'positions': [0, 1, 2], 'index': ix}
